@@ -61,6 +61,7 @@ class State:
         self.defd = {}  # name -> z3 Bool: definedness flag of maybe-unbound locals that live across loop iterations
         self.old = None  # entry environment (for old(...))
         self.facts = []  # like pc but not shown as path; assumptions from contracts (kept separate only for reporting)
+        self.named = {}  # label -> formula of an anchor assertion proved on this path (for Loop.pres_from)
 
     def copy(self):
         s = State()
@@ -69,6 +70,7 @@ class State:
         s.defd = dict(self.defd)
         s.old = self.old
         s.facts = list(self.facts)
+        s.named = dict(self.named)
         return s
 
     def assume(self, f):
@@ -86,7 +88,7 @@ class Oblig:
 
 class Loop:
     def __init__(self, invariant=None, decreases=None, index=None, fingerprint=None, ghost_before=None,
-                 ghost_body_start=None, ghost_body_end=None, modifies=None, seq_name=None, hints=None, exit_facts=None):
+                 ghost_body_start=None, ghost_body_end=None, modifies=None, seq_name=None, hints=None, exit_facts=None, pres_from=None):
         self.invariant = invariant or {}
         self.decreases = decreases
         self.index = index
@@ -98,6 +100,8 @@ class Loop:
         self.seq_name = seq_name
         self.hints = hints or []
         self.exit_facts = exit_facts or []
+        self.pres_from = pres_from or {}  # invariant name -> labels of anchor assertions: preservation is proved from those facts
+        #                                    (plus the quantifier-free path facts) only
 
 
 class Contract:
@@ -1180,6 +1184,20 @@ class Engine:
     def exec_stmt(self, s, st):
         self.cur_line = s.lineno
         pre = self.anchor_ghost("before:", s, st)
+        own = None
+        if self.raise_conds is None and self.c.raises and not getattr(self, "in_ghost", False) and not self.in_spec \
+                and not isinstance(s, (ast.If, ast.For, ast.While, ast.Try, ast.With)):
+            # exceptions the function's own contract declares it may raise propagate out of the function (a raise path), they are not safety failures
+            own = (self.catch, self.raise_conds)
+            self.catch = self.catch | set(self.c.raises)
+            self.raise_conds = {}
+        try:
+            return self._exec_stmt_outer(s, st)
+        finally:
+            if own is not None:
+                self.catch, self.raise_conds = own
+
+    def _exec_stmt_outer(self, s, st):
         if self.raise_conds is not None and not isinstance(s, (ast.If, ast.For, ast.While, ast.Try, ast.With)):
             # simple statement inside a try body: fork on the collected raise conditions
             saved = self.raise_conds
@@ -1232,7 +1250,9 @@ class Engine:
                 self.anchor_hits.add(anchor)
                 for label, e in claims.items():
                     self.oblige_spec(st, "assert", label, e, s)
-                    st.assume(self.spec_bool(e, st))  # proved at this point, usable afterwards
+                    f_ = self.spec_bool(e, st)
+                    st.assume(f_)  # proved at this point, usable afterwards
+                    st.named[label] = f_
 
     def run_ghost(self, code, st):
         tree = ast.parse(code.strip() if "\n" not in code.strip() else _dedent(code))
@@ -1417,8 +1437,6 @@ class Engine:
         raise Unsupported("with-statement %s at line %s" % (txt, s.lineno))
 
     def st_Try(self, s, st):
-        if s.finalbody:
-            raise Unsupported("try/finally at line %s" % s.lineno)
         names = set()
         for h in s.handlers:
             if h.type is None:
@@ -1430,7 +1448,8 @@ class Engine:
                 names.add(ast.unparse(h.type).split(".")[-1])
         saved_catch, saved_rc = self.catch, self.raise_conds
         self.catch = self.catch | names
-        self.raise_conds = {}
+        if s.handlers:
+            self.raise_conds = {}
         try:
             res = self.exec_block(s.body, st)
         finally:
@@ -1446,7 +1465,17 @@ class Engine:
                 out += self.exec_block(s.orelse, s2)
             else:
                 out.append((s2, kind, payload))
-        return out
+        if not s.finalbody:
+            return out
+        # finally: runs on every way out (normal, return, break/continue, exception), then that way out continues
+        final = []
+        for (s2, kind, payload) in out:
+            for (s3, k3, p3) in self.exec_block(s.finalbody, s2):
+                if k3 == "next":
+                    final.append((s3, kind, payload))
+                else:
+                    final.append((s3, k3, p3))  # the finally block itself returned / raised
+        return final
 
     @staticmethod
     def _handler_for(s, exc):
@@ -1644,7 +1673,14 @@ class Engine:
                         continue
                 self.n_paths += 1
                 for name, e in lc.invariant.items():
-                    self.oblige_spec(s2, "inv-pres", "loop%d:%s" % (k, name), e, s)
+                    if name in lc.pres_from and all(l in s2.named for l in lc.pres_from[name]):
+                        g = self.spec_bool(e, s2)
+                        hyps = [s2.named[l] for l in lc.pres_from[name]] + [f for f in s2.pc if not _contains_quantifier(f)]
+                        o = Oblig("%s::inv-pres::loop%d:%s" % (self.c.qual, k, name), "inv-pres", list(self.global_axioms.values()) + hyps, g, s.lineno)
+                        o.inputs = self.inputs
+                        self.obligs.append(o)
+                    else:
+                        self.oblige_spec(s2, "inv-pres", "loop%d:%s" % (k, name), e, s)
             elif kind == "break":
                 out.append((s2, "next", None))
             else:
